@@ -422,6 +422,8 @@ pub struct XOutput {
     pub lovelace: BigInt,
     pub assets: AssetMap,
     pub datum: Option<PData>,
+    /// content of the reference script (`[language, script]` in CBOR), for outputs made by `cardano::publish`
+    pub script_ref: Option<Vec<u8>>,
 }
 
 #[derive(Clone, Debug, Default, PartialEq)]
@@ -555,7 +557,46 @@ pub fn denote(env: &Env) -> Result<ExpectedTx, EvalErr> {
         if out.optional && lovelace.is_zero() && assets.is_empty() {
             continue;
         }
-        x.outputs.push(XOutput { address, lovelace, assets, datum });
+        x.outputs.push(XOutput { address, lovelace, assets, datum, script_ref: None });
+    }
+    // `cardano::publish` blocks: one more output each, after the `output` blocks, in source order
+    for d in &tx.cardano {
+        if let GDirective::Publish { to, amount, datum, version, script, .. } = d {
+            let address = as_addr(ev.eval(to, Ctx::Address)?)?;
+            let value = as_value(ev.eval(amount, Ctx::Asset)?)?;
+            let datum = match datum {
+                Some(d) => Some(to_pdata(&ev.eval(d, Ctx::Datum)?)?),
+                None => None,
+            };
+            let mut lovelace = BigInt::zero();
+            let mut assets = AssetMap::new();
+            for (class, q) in &value {
+                if q.is_negative() || *q > u64_max() {
+                    oor.push(format!("output quantity {} of {:?} (cardano::publish output)", q, class));
+                }
+                match class {
+                    Class::Lovelace => lovelace = q.clone(),
+                    Class::Token(p, n) => {
+                        if p.len() != 28 {
+                            return unsupported("token policy must be 28 bytes in the modelled fragment");
+                        }
+                        if *q > BigInt::from(i64::MAX) {
+                            x.beyond_i64 = true;
+                        }
+                        assets.insert((p.clone(), n.clone()), q.clone());
+                    }
+                }
+            }
+            // script reference: [language, script]; a Plutus script is a byte string, a native one its own structure
+            let mut sr = vec![0x82, *version as u8];
+            if *version == 0 {
+                sr.extend_from_slice(script);
+            } else {
+                crate::dec::cbor_bytes_head(script.len(), &mut sr);
+                sr.extend_from_slice(script);
+            }
+            x.outputs.push(XOutput { address, lovelace, assets, datum, script_ref: Some(sr) });
+        }
     }
 
     // mint / burn
